@@ -704,14 +704,15 @@ func (x *Exec) resolveModifies(env *Env, items []ModItem, where string) (map[str
 					}
 					base = Val{T: dt, K: KScalar, S: base.Pay}
 				}
-				pt, ok := base.T.Underlying().(*types.Pointer)
-				if !ok {
+				if _, ok := base.T.Underlying().(*types.Pointer); !ok {
 					env.fail("fields(%s): not a pointer", it.X)
 				}
-				if _, ok := pt.Elem().Underlying().(*types.Struct); !ok {
-					env.fail("fields(%s): not a pointer to struct", it.X)
-				}
 				a := x.addrOf(base)
+				if n, ok := x.packedObj(a); ok {
+					_ = n
+					add(a.Prefix, "(Array Int (Array "+x.sorts.Idx()+" "+x.byteSort()+"))", false, a.Idx)
+					return
+				}
 				for _, l := range x.sorts.leaves(a.T) {
 					add(a.Prefix+l.suffix, x.leafHeapSort(a, l), false, a.Idx)
 				}
